@@ -49,6 +49,12 @@ CONTROLS = {
               ("Retry.mc3.cfg", {"Bug": '"stop_priority_lost"'}, "ContractHolds"),
               ("Retry.mc.cfg", {"AsShipped_D8": "TRUE"}, "NoStaleJobAtEnd"),
               ("Retry.mc.cfg", {"AsShipped_D9": "TRUE"}, "ContractHolds")],
+    "SharedTimeout": [("SharedTimeout.mc2.cfg", {"Bug": '"no_weakref_callback"'}, "ThreadsGone"),
+                      ("SharedTimeout.mc2.cfg", {"Bug": '"no_set_on_submit"'}, "Settled"),
+                      ("SharedTimeout.mc2.cfg", {"Bug": '"done_future_keeps_executor"'}, "ThreadsGone"),
+                      ("SharedTimeout.mc2.cfg", {"Bug": '"worker_keeps_ref"'}, "ThreadsGone"),
+                      ("SharedTimeout.mc2.cfg", {"Bug": '"ref_not_published"'}, "AtMostOneAlive"),
+                      ("SharedTimeout.mc2.cfg", {"Bug": '"no_lock"'}, "AtMostOneAlive")],
     "Throttle": [("Throttle.dyn.cfg", {"Bug": '"lifo"'}, "ContractHolds"),
                  ("Throttle.mc.cfg", {"Bug": '"no_decr"'}, "ContractHoldsButD6"),
                  ("Throttle.mc.cfg", {"Bug": '"no_set_on_done"'}, "ContractHoldsButD6"),
